@@ -867,12 +867,16 @@ impl Patch {
             } => {
                 if let Some(revision) = lookup::revision_mut(self, &revision)? {
                     let key = (author, reaction);
-                    let reactions = revision.reactions.entry(location).or_default();
 
                     if active {
-                        reactions.insert(key);
-                    } else {
+                        revision.reactions.entry(location).or_default().insert(key);
+                    } else if let Some(reactions) = revision.reactions.get_mut(&location) {
                         reactions.remove(&key);
+                        // Nb. Don't keep an empty set around: it has no serialized form,
+                        // so a cached patch would differ from the evaluated one.
+                        if reactions.is_empty() {
+                            revision.reactions.remove(&location);
+                        }
                     }
                 }
             }
